@@ -175,7 +175,8 @@ Definition rx_arp (c : cfg) (s : state) (p : arp_pkt) : state * list frame :=
   | CProbe =>
       match offer_of (psmac p) (offers s) with
       | Some offer =>
-          if negb (offer =? ptip p) && in_lan c (ptip p) then (s, [probe_reject c p]) else (s, [])
+          if negb (offer =? ptip p) && (in_lan c (ptip p) && negb (ptip p =? router_ip c))   (* not for the router's address: repair of K1 *)
+          then (s, [probe_reject c p]) else (s, [])
       | None => (s, [])
       end
   | _ => (s, [])
@@ -233,23 +234,11 @@ Definition none_of (P : event -> bool) (evs : list event) : Prop :=
 Definition loop_is (s : state) (i : nat) (a : addr) (running : bool) : Prop :=
   nth_error (loops s) i = Some (mkLoop a running).
 
-(* ---- recorded defect classes (decidable, narrow) ---- *)
-
-(* K1: a probe for the ROUTER's address from a MAC that holds a different offer is answered with a
-   probe-reject whose sender fields are (our MAC, router IP): a forged binding sent to a host that
-   need not be hunted. *)
-Definition known_C13_probe_router (c : cfg) (s : state) (e : event) : bool :=
-  match e with
-  | RxArp p =>
-      match classify p, offer_of (psmac p) (offers s) with
-      | CProbe, Some offer =>
-          negb (closed s) &&
-          (negb (offer =? ptip p) && in_lan c (ptip p) && (ptip p =? router_ip c) && negb (hunted s (psmac p)))
-      | _, _ => false
-      end
-  | _ => false
-  end.
-
-(* (K2, DESIGN #27 — membership of the loop looked up by IP — was repaired in /repo; see known_findings.txt) *)
-
-(* (K3 — forged replies on the receive path after Close — was repaired in /repo; see known_findings.txt) *)
+(* ---- recorded defect classes ----
+   None is left in the current tree.  The three classes found on the original code were repaired in /repo
+   (see known_findings.txt, FIXLOG.md):
+     K1  probe-reject for the ROUTER's address sent to an unhunted MAC (forged binding outside the hunt list)
+     K2  DESIGN #27: loop membership looked up by IP — a stopped MAC sharing its IPv4 with a hunted MAC was never restored
+     K3  forged replies on the receive path after Close
+   The refutation theorems about the unrepaired model are in the history of this file (verif commits
+   e3a3954, ae1e0b3, dd6b3e8). *)
